@@ -493,9 +493,11 @@ pub fn run_life(case_in: &J, out: &mut Out, ic_build: bool) {
             if rep > 0 {
                 continue; // repeats only compare prints
             }
+            // three-valued observation only on the not-optimised object: the negated twin of a
+            // condition `not X` is `not (not X)`, which shake rewrites (KF-shake-double-negation)
             let nobj = match &neg_rule {
-                Some(n) => optimise(n, sw).ok(),
-                None => None,
+                Some(n) if sw_of(sw).is_none() => Some(n.clone()),
+                _ => None,
             };
             for (i, d) in docs.iter().enumerate() {
                 let d = match d {
